@@ -69,6 +69,10 @@ class Yield(BaseException):
     """The server loop asks its selector for the next event."""
 
 
+class StopRun(BaseException):
+    """The prescribed schedule ends while a worker step is preempted."""
+
+
 class DSLRaise(Exception):
     """Raised by the DSL instruction `raise`."""
 
@@ -78,16 +82,89 @@ _NOSLEEP = types.SimpleNamespace(sleep=lambda s: None)
 
 # ------------------------------------------------------------------ the DSL
 # program table: tuple of programs, a program = tuple of instructions
-#   ('s', pid)            f_k := submit(child running program pid)
-#   ('m', (pid, ...))     f_k := map(children running these programs)
+#   ('s', pid[, shape])        f_k := submit(child running program pid)
+#                              shape: 'kw' (the table is passed as a keyword
+#                              argument), 'named' (task_name=str, log_context=dict)
+#   ('m', pids[, shape])       f_k := map(children running these programs)
+#                              shape: ('z', l0, l2)  three argument lists of lengths
+#                                       l0, len(pids), l2 - map zips them, so
+#                                       min(l0, len(pids), l2) tasks are created;
+#                                     ('zn', l0, l2) the same with task_name /
+#                                       log_context lists of len(args[0]) = l0;
+#                                     ('one',)  ONE argument list of packed triples;
+#                                     ('kw',)   the table as a keyword argument;
+#                                     ('named',) task_name / log_context lists
 #   ('a', k)              v := await f_k            (appended to `seen`)
 #   ('n', k)              v := await next(f_k)      (appended to `seen`)
 #   ('c', k)              cancel(f_k)
 #   ('x',)                raise DSLRaise
 #   ('r',)                return early
+#   ('y',)                the main thread of the worker is preempted here, in the
+#                         middle of a step: the scheduler may run other
+#                         transitions (deliveries to THIS worker = its incoming
+#                         thread, anything on other nodes) before the body goes on
 # A task returns ('N', tag, pid, seen).  tag = path from the root
 # (root tag = (comp index,), child = parent tag + (future index, slot)).
 CUR: 'Sim | None' = None
+
+
+def eff_pids(ins) -> tuple:
+    """The child programs a map instruction really creates tasks for."""
+    pids = tuple(ins[1])
+    if len(ins) > 2 and ins[2][0] in ('z', 'zn'):
+        return pids[:min(ins[2][1], len(pids), ins[2][2])]
+    return pids
+
+
+def children(ins) -> tuple:
+    if ins[0] == 's':
+        return (ins[1],)
+    if ins[0] == 'm':
+        return eff_pids(ins)
+    return ()
+
+
+async def run_prog_kw(pid, tag, table=None):
+    return await run_prog(table, pid, tag)
+
+
+async def run_packed(x):
+    return await run_prog(*x)
+
+
+def do_submit(rt, table, ins, tag, k):
+    shape = ins[2] if len(ins) > 2 else None
+    if shape == 'kw':
+        return rt.submit(run_prog_kw, ins[1], tag + (k, 0), table=table)
+    if shape == 'named':
+        return rt.submit(run_prog, table, ins[1], tag + (k, 0),
+                         task_name='child', log_context={'k': str(k)})
+    return rt.submit(run_prog, table, ins[1], tag + (k, 0))
+
+
+def do_map(rt, table, ins, tag, k):
+    pids = list(ins[1])
+    n = len(pids)
+    shape = ins[2] if len(ins) > 2 else ('eq',)
+    tags = lambda m: [tag + (k, i) for i in range(m)]
+    if shape[0] in ('z', 'zn'):
+        l0, l2 = shape[1], shape[2]
+        kw = {}
+        if shape[0] == 'zn':
+            kw = dict(task_name=[f't{i}' for i in range(l0)],
+                      log_context=[{'i': str(i)} for i in range(l0)])
+        # a tuple, a list and a list: every sized sequence is accepted
+        return rt.map(run_prog, (table,) * l0, pids, tags(l2), **kw)
+    if shape[0] == 'one':
+        return rt.map(run_packed, [(table, p, tag + (k, i))
+                                   for i, p in enumerate(pids)])
+    if shape[0] == 'kw':
+        return rt.map(run_prog_kw, pids, tags(n), table=table)
+    if shape[0] == 'named':
+        return rt.map(run_prog, [table] * n, pids, tags(n),
+                      task_name=[f't{i}' for i in range(n)],
+                      log_context=[{'i': str(i)} for i in range(n)])
+    return rt.map(run_prog, [table] * n, pids, tags(n))
 
 
 async def run_prog(table, pid, tag):
@@ -97,20 +174,18 @@ async def run_prog(table, pid, tag):
     sim.ev('start', tag, pid, rt._id)
     futs = []
     seen = []
-    for ins in table[pid]:
+    for ip, ins in enumerate(table[pid]):
         op = ins[0]
         if op == 's':
             k = len(futs)
-            f = rt.submit(run_prog, table, ins[1], tag + (k, 0))
+            f = do_submit(rt, table, ins, tag, k)
             futs.append(f)
             sim.ev('spawn', tag, k, rt._id, f.mailbox_id, (ins[1],))
         elif op == 'm':
             k = len(futs)
-            n = len(ins[1])
-            f = rt.map(run_prog, [table] * n, list(ins[1]),
-                       [tag + (k, i) for i in range(n)])
+            f = do_map(rt, table, ins, tag, k)
             futs.append(f)
-            sim.ev('spawn', tag, k, rt._id, f.mailbox_id, tuple(ins[1]))
+            sim.ev('spawn', tag, k, rt._id, f.mailbox_id, eff_pids(ins))
         elif op == 'a':
             sim.ev('await', tag, ins[1])
             v = await futs[ins[1]]
@@ -131,6 +206,8 @@ async def run_prog(table, pid, tag):
             raise DSLRaise('dsl-raise ' + '.'.join(map(str, tag)))
         elif op == 'r':
             break
+        elif op == 'y':
+            sim.midstep(f'W{rt._id}', tag, ip)
     term = ('N', tag, pid, tuple(seen))
     sim.ev('ret', tag, term, rt._id)
     return term
@@ -188,7 +265,11 @@ def reference_term(table, pid, tag):
         if op == 's':
             futs.append(('s', ins[1]))
         elif op == 'm':
-            futs.append(('m', ins[1]))
+            if not eff_pids(ins):
+                return None
+            futs.append(('m', eff_pids(ins)))
+        elif op == 'y':
+            pass
         elif op == 'a':
             k = ins[1]
             if k in used or k >= len(futs):
@@ -419,6 +500,18 @@ class Sim:
         self.syserr: list = []
         self.comp: list = []             # comp index -> dict(client, idx, uuid, pid)
         self.uuid2comp: dict = {}
+        # preemption of worker steps (DSL instruction 'y')
+        self.paused: list = []           # stack of (worker, tag, instruction)
+        self.open_recs: list = []        # records of the transitions in progress
+        self.sched_log: list = []        # transitions in START order, with the
+        #                                  pseudo transitions ('r', W) = resume
+        self.nested_fired = 0
+        self.ev_step: list = []          # per event: start time of its transition
+        self.cur_node = None
+        self._choose = None
+        self._before = self._after = None
+        self.on_stop = None
+        self.stop_info = None
         self._patch_modules()
         self._build()
         CUR = self
@@ -465,6 +558,10 @@ class Sim:
             _active_task=None, _running=True, _mailboxes={},
             _mailbox_counter=0, _cache={}, most_recent_read_submit=None,
             read_receipt_mutex=Lock(), incoming_thread=FakeThread(),
+            # created by Worker.__init__ since the maintainer's mailbox-mutex
+            # fix (C07 finding 1); harmless extra attribute on a tree
+            # without the fix (`_fill` only complains about MISSING names)
+            _mailbox_mutex=Lock(),
         ), [(Worker, ('__init__',))])
         n.obj = w
 
@@ -551,6 +648,8 @@ class Sim:
     # -------------------------------------------------------------- plumbing
     def ev(self, *e):
         self.events.append((self.t,) + e)
+        self.ev_step.append(self.open_recs[-1]['t'] if self.open_recs
+                            else self.t)
 
     def post(self, src, dst, m):
         # a real connection pickles: the receiver gets its own list object
@@ -578,32 +677,73 @@ class Sim:
         for (s, d), q in self.chan.items():
             if q:
                 out.append(('d', s, d))
+        mid = {p[0] for p in self.paused}
         for n in self.nodes.values():
             if n.kind == 'W' and n.alive and not n.in_dead:
+                if n.name in mid:
+                    continue            # its main thread is inside a step
                 if not n.blocked or n.obj._ready_task_ids.qsize() > 0:
                     out.append(('w', n.name))
             elif n.kind == 'C' and n.alive:
                 if n.pending is None and n.pc < len(n.script):
                     out.append(('c', n.name))
+        if self.paused:
+            out.append(('r', self.paused[-1][0]))   # the innermost resumes
         return out
 
     def fire(self, tr: tuple):
+        """Re-entrant: a preempted worker step (`midstep`) fires transitions
+        while its own record is still open."""
+        if self._before:
+            self._before(self)
         self.t += 1
+        self.sched_log.append(tuple(tr))
+        saved = (self.emitted, self.cur_node)
         self.emitted = []
-        self.cur_node = None
-        info: dict[str, Any] = {}
-        if tr[0] == 'd':
-            info = self._deliver(tr[1], tr[2])
-        elif tr[0] == 'w':
-            info = self._step(tr[1])
-        elif tr[0] == 'c':
-            info = self._client(tr[1])
-        else:
-            raise ValueError(tr)
-        rec = {'t': self.t, 'tr': tr, 'emitted': list(self.emitted)}
+        rec = {'t': self.t, 'tr': tuple(tr), 'emitted': self.emitted,
+               'depth': len(self.paused), 'segments': [self.t], 'nested': 0}
+        self.open_recs.append(rec)
+        try:
+            if tr[0] == 'd':
+                info = self._deliver(tr[1], tr[2])
+            elif tr[0] == 'w':
+                info = self._step(tr[1])
+            elif tr[0] == 'c':
+                info = self._client(tr[1])
+            else:
+                raise ValueError(tr)
+        finally:
+            self.open_recs.pop()
+            self.emitted, self.cur_node = saved
+        rec['emitted'] = list(rec['emitted'])
         rec.update(info)
         self.translog.append(rec)
+        if self._after:
+            self._after(self, rec)
         return rec
+
+    def midstep(self, wname, tag, ip):
+        """DSL instruction 'y' inside a worker step: other transitions may run
+        now (chosen by the schedule / policy) until ('r', wname) is chosen."""
+        if self._choose is None or not self.open_recs:
+            return
+        self.paused.append((wname, tag, ip))
+        saved_worker = wmod._worker
+        try:
+            while True:
+                tr = self._choose()
+                if tr is None or tuple(tr) == ('r', wname):
+                    self.t += 1
+                    self.sched_log.append(('r', wname))
+                    self.open_recs[-1]['segments'].append(self.t)
+                    return
+                self.nested_fired += 1
+                self.open_recs[-1]['nested'] += 1
+                self.fire(tr)
+                wmod._worker = saved_worker
+        finally:
+            wmod._worker = saved_worker
+            self.paused.pop()
 
     def _deliver(self, src, dst):
         m = self.chan[(src, dst)].popleft()
@@ -686,6 +826,7 @@ class Sim:
         node = self.nodes[name]
         self.cur_node = name
         w = node.obj
+        outer_worker = wmod._worker
         wmod._worker = w
         node.blocked = False
         crashed = []
@@ -706,7 +847,7 @@ class Sim:
             node.blocked = True
         finally:
             w.__dict__.pop('_try_step_next_ready_task', None)
-            wmod._worker = None
+            wmod._worker = outer_worker
         if crashed:
             # Worker._loop caught an exception outside task code: the worker
             # stops running and reports a system error upstream
@@ -800,33 +941,52 @@ class Sim:
     # ------------------------------------------------------------------ runs
     def run(self, policy=None, max_steps=3000, schedule=None,
             after=None, before=None, cont=False) -> bool:
-        """Run to quiescence.  Returns True when quiescent."""
+        """Run to quiescence.  Returns True when quiescent.  A schedule is the
+        list of transitions in start order, pseudo transitions ('r', W)
+        included (see `midstep`)."""
         policy = policy or Policy.uniform()
-        i = 0
-        while self.t < max_steps:
+        st = {'i': 0, 'schedule': schedule}
+        self._before, self._after = before, after
+
+        def choose():
             en = self.enabled()
             if not en:
-                return True
-            if schedule is not None and i >= len(schedule) and cont:
-                schedule = None      # prefix replayed: go on with the policy
-            if schedule is not None:
-                if i >= len(schedule):
-                    return False
-                tr = tuple(schedule[i])
-                i += 1
+                return None
+            if self.t >= max_steps:
+                return ('r', self.paused[-1][0]) if self.paused else None
+            sch = st['schedule']
+            if sch is not None and st['i'] >= len(sch):
+                if cont:
+                    sch = st['schedule'] = None  # prefix replayed: policy
+                else:
+                    self.stop_info = {'enabled': en,
+                                      'paused': list(self.paused)}
+                    if self.on_stop:
+                        self.on_stop(self)
+                    raise StopRun()
+            if sch is not None:
+                tr = tuple(sch[st['i']])
+                st['i'] += 1
                 if tr not in en:
                     raise RuntimeError(f'schedule step {tr} not enabled')
-            else:
-                tr = policy.pick(self.rng, en, self)
-            if before:
-                before(self)
-            rec = self.fire(tr)
-            if after:
-                after(self, rec)
-        return False
+                return tr
+            return policy.pick(self.rng, en, self)
+        self._choose = choose
+        try:
+            while self.t < max_steps:
+                tr = choose()
+                if tr is None:
+                    return not self.enabled()
+                self.fire(tr)
+            return False
+        except StopRun:
+            return False
+        finally:
+            self._choose = None
+            self._before = self._after = None
 
     def schedule(self):
-        return [list(r['tr']) for r in self.translog]
+        return [list(tr) for tr in self.sched_log]
 
     def dispose(self):
         """Close coroutines the run left behind (quiet interpreter exit)."""
@@ -848,6 +1008,8 @@ class Policy:
         self.ww = ww or {}
         self.wc = wc
         self.base_d, self.base_w = base_d, base_w
+        self.wr = 1.0      # weight of resuming a preempted step, relative to
+        #                    the sum of everything else that is enabled
 
     @staticmethod
     def uniform():
@@ -882,16 +1044,26 @@ class Policy:
             for w in wk:
                 ww[w] = rng.choice([0.05, 0.2, 1])
         p = Policy(wd, ww, wc=rng.choice([0.05, 0.3, 1, 4]))
+        p.wr = rng.choice([0.3, 1.0, 1.0, 3.0])
         p.style = style
         return p
 
     def pick(self, rng, en, sim):
         ws = []
+        mid = {p[0] for p in sim.paused}
         for tr in en:
             if tr[0] == 'd':
-                ws.append(self.wd.get((tr[1], tr[2]), self.base_d))
+                x = self.wd.get((tr[1], tr[2]), self.base_d)
+                if tr[2] in mid:
+                    x = max(x, 1.0) * 3    # the incoming thread of a worker
+                ws.append(x)               # whose main thread is mid-step
             elif tr[0] == 'w':
                 ws.append(self.ww.get(tr[1], self.base_w))
+            elif tr[0] == 'r':
+                ws.append(None)
             else:
                 ws.append(self.wc)
+        if None in ws:
+            tot = sum(x for x in ws if x is not None)
+            ws = [self.wr * max(tot, 1.0) if x is None else x for x in ws]
         return rng.choices(en, ws)[0]
